@@ -35,7 +35,7 @@ var initSkip = map[string]bool{
 	"os": true, "syscall": true, "internal/poll": true, "runtime": true, "reflect": true, "internal/reflectlite": true, "fmt": true,
 	"internal/testlog": true, "internal/syscall/unix": true, "internal/syscall/execenv": true, "internal/cpu": true,
 	"golang.org/x/net/ipv4": true, "golang.org/x/net/ipv6": true, "math/rand": true, "internal/godebug": true,
-	"context": true, "sync": true, "crypto": true,
+	"context": true, "sync": true,
 }
 
 func loadProgram(repo, harnessDir string) (*Prog, error) {
